@@ -20,6 +20,7 @@ struct AItem
 
 // long names; the alternative set makes one declared name a proper prefix of another
 static std::string N_MULTI = "multi", N_UGG = "ugg";
+static int DEF_TOG = 0, DEF_UGG = 0; // declared defaults of the two toggles (used when a toggle does not occur)
 
 static Decl declaration(bool shorts)
 {
@@ -38,6 +39,7 @@ static Res expected(const Decl& D, const std::vector<AItem>& as)
     r.multi[N_MULTI];
     r.tog["tog"] = 0;
     r.tog[N_UGG] = 0;
+    bool saw_t = false, saw_u = false;
     for (auto& a : as)
     {
         switch (a.type)
@@ -52,10 +54,12 @@ static Res expected(const Decl& D, const std::vector<AItem>& as)
             break;
         case 'T':
             r.tog["tog"]++;
+            saw_t = true;
             r.provided.insert("tog");
             break;
         case 'U':
             r.tog[N_UGG]++;
+            saw_u = true;
             r.provided.insert(N_UGG);
             break;
         case 'P':
@@ -64,6 +68,10 @@ static Res expected(const Decl& D, const std::vector<AItem>& as)
         }
     }
     (void)D;
+    if (!saw_t)
+        r.tog["tog"] = DEF_TOG;
+    if (!saw_u)
+        r.tog[N_UGG] = DEF_UGG;
     return r;
 }
 
@@ -265,12 +273,20 @@ int main(int argc, char** argv)
 
     auto sh = sharded(a, "C02");
     sh.walk = [&](mc::Ctx& ctx) {
-        for (int variant = 0; variant < 4; variant++)
+        for (int variant = 0; variant < 5; variant++)
         {
+            DEF_TOG = variant == 4 ? 2 : 0;
+            DEF_UGG = variant == 4 ? 1 : 0;
             int shorts = variant != 1;
             N_MULTI = variant == 2 ? "opt-x" : "multi";
             N_UGG = variant == 2 ? "toggle" : "ugg";
             Decl D = declaration(shorts);
+            if (variant == 4)
+            {
+                // toggles with non-zero defaults: the count is the number of occurrences, the default only when absent
+                D.items[2].tdef = 2;
+                D.items[3].tdef = 1;
+            }
             if (variant == 3)
             {
                 // the second toggle and the multi-option live in named groups (bundles then span groups)
@@ -317,6 +333,21 @@ int main(int argc, char** argv)
                                                  return;
                                              }
                                              chk.run_case(D, av, {}, rep, idx);
+                                             // the same spelling through parse(std::vector<user_input>) - every token of a
+                                             // rendering in front of `--` is well formed, so the checking constructor accepts it;
+                                             // renderings with dash-leading positionals behind `--` are left to the argv entry
+                                             bool wellformed = true;
+                                             for (auto& t : av)
+                                                 if (lex(t).shape == Tok::MALFORMED)
+                                                     wellformed = false;
+                                             if (wellformed)
+                                             {
+                                                 auto iv = impl_vector_entry(D, av, {});
+                                                 rep.count("executions");
+                                                 for (auto& d : compare(want, iv))
+                                                     rep.violation("vector-entry:" + d.clause, "C02:vector-entry:" + d.clause + ":" + class_seq(D, av),
+                                                                   witness_json(D, av, {}), "parse(std::vector<user_input>): " + d.detail, idx);
+                                             }
                                          });
                             });
                         }
